@@ -138,6 +138,7 @@ class Contract:
     self.value_total = set(g("value_total", []))   # implicit exceptions that are obligations in the value pass
     self.value_pass = g("value_pass", False)    # congruence-mode contract with VALUE-tagged clauses (second pass)
     self.bounded = g("bounded", None)
+    self.point_maps = g("point_maps", False)   # collections.defaultdict(list) in this body is a point -> [index] multimap
 
   def all_props(self):
     ps = set(self.props)
